@@ -329,6 +329,13 @@ type c20Conn struct {
 	gateAt     int
 	gatePassed bool
 	gateWatchdog bool
+	// optional write gate: the first Write that starts when at least wgateAtOut bytes have
+	// been written closes wparked and waits for wgate BEFORE it looks at p (a Write that is
+	// blocked by a slow reader; the caller must not modify p until Write returns).
+	wgate      chan struct{}
+	wparked    chan struct{}
+	wgateAtOut int
+	wgatePassed bool
 }
 
 func (c *c20Conn) Read(p []byte) (int, error) {
@@ -379,6 +386,15 @@ func (c *c20Conn) Read(p []byte) (int, error) {
 }
 
 func (c *c20Conn) Write(p []byte) (int, error) {
+	if c.wgate != nil && !c.wgatePassed && len(c.out) >= c.wgateAtOut {
+		c.wgatePassed = true
+		close(c.wparked)
+		select {
+		case <-c.wgate:
+		case <-time.After(30 * time.Second):
+			c.gateWatchdog = true
+		}
+	}
 	c.out = append(c.out, p...)
 	return len(p), nil
 }
